@@ -164,6 +164,9 @@ Proof.
     eapply inv_same_subs; eauto. eapply Ctl_frame; [..|exact HC]; reflexivity.
   - (* SubscribeCall *)
     inv_some. eapply inv_same_subs; eauto. eapply Ctl_frame; [..|exact HC]; reflexivity.
+  - (* CancelPending *)
+    destruct (nth_error (pend_subs s) j) as [[id [p c]]|]; try discriminate. inv_some.
+    eapply inv_same_subs; eauto. eapply Ctl_frame; [..|exact HC]; reflexivity.
   - (* Cancel *) eapply inv_with_sub; eauto. intros b b' _ Hg Hok; cbv beta in Hg. inv_some.
     unfold sub_ok in *; cbn; tauto.
   - (* Want *) eapply inv_with_sub; eauto. intros b b' _ Hg Hok; cbv beta in Hg. inv_some.
@@ -254,10 +257,10 @@ Proof.
     destruct HI as [_ HS HR]. constructor.
     + eapply Ctl_frame; [..|exact HC]; reflexivity.
     + cbn. apply Forall_app; split; auto. constructor; [|constructor].
-      destruct (closed s); unfold sub_ok; cbn; repeat split; intros; try discriminate; auto.
+      unfold mk_sub. destruct (closed s); unfold sub_ok; cbn; repeat split; intros; try discriminate; auto.
     + intros Hc. assert (Hc0 : any_returned s) by exact Hc.
       unfold all_exited. cbn. apply Forall_app; split; [exact (HR Hc0)|].
-      constructor; [|constructor]. rewrite (returned_closed _ HC Hc0). reflexivity.
+      constructor; [|constructor]. unfold mk_sub. rewrite (returned_closed _ HC Hc0). reflexivity.
   - (* CloseLoopDone *)
     destruct (cl s) eqn:Hcl; try discriminate. destruct (proc s) eqn:Hp; try discriminate.
     inv_some. destruct HI as [_ HS HR]. destruct HC as [H1 H2 H3 H4 H5 H6 H7 H8 H9].
@@ -591,9 +594,8 @@ Proof.
     unfold measure, exec_cost, total_subs.
     cbn [pending subs lock proc pend_subs cl cl2 set_subs set_pend_subs].
     rewrite Hl, map_app, list_sum_app, app_length. cbn [length map list_sum].
-    assert (sub_cost (if closed s then dropped_sub p (length (fanout s))
-                      else new_sub p (length (fanout s))) <= 3)%nat
-      by (destruct (closed s); cbn; lia).
+    assert (sub_cost (mk_sub (closed s) p (length (fanout s))) <= 3)%nat
+      by (unfold mk_sub; destruct (closed s); cbn; lia).
     replace (length (subs s) + 1 + length (remove_nth j (pend_subs s)))%nat
       with (length (subs s) + length (pend_subs s))%nat by lia.
     unfold list_sum in *. cbn [fold_right].
@@ -678,6 +680,9 @@ Proof.
   - (* Advance *) destruct (d <? 0)%Z; [discriminate|]. inv_some.
     exists v, idx, b. cbn. repeat split; auto.
   - (* SubscribeCall *) inv_some. exists v, idx, b. cbn. repeat split; auto.
+  - (* CancelPending *)
+    destruct (nth_error (pend_subs s) j) as [[id [p c]]|]; try discriminate. inv_some.
+    exists v, idx, b. cbn. repeat split; auto.
   - (* CloseCall *) rewrite Hcl in Hs. discriminate.
   - (* Pop *) rewrite Hp in Hs. discriminate.
   - (* ExecBegin *) rewrite Hp, Hl in Hs. discriminate.
@@ -740,7 +745,7 @@ Fixpoint sched (vr : variant) (iv : Z) (s : st) (envs : list ev) : list ev :=
 (* Subscribe (consumer never reads); 52 values, one per interval: 51 are absorbed (1 held by the
    forwarder + 50 buffered), the 52nd delivery blocks; the subscriber's context ends; Close. *)
 Definition wedge_env : list ev :=
-  SubscribeCall 0%Z false
+  SubscribeCall 0%Z false false
   :: flat_map (fun n => [Batch 0%Z (Z.of_nat n); Advance 2%Z]) (seq 1 52) ++ [Cancel 0; CloseCall].
 
 Definition wedge_es : list ev := Eval vm_compute in sched Original 2%Z init wedge_env.
@@ -879,6 +884,8 @@ Proof.
   - (* Batch *) destruct (qstopped s); inv_some; auto.
   - (* Advance *) destruct (d <? 0)%Z; [discriminate|]. inv_some. auto.
   - (* SubscribeCall *) inv_some. auto.
+  - (* CancelPending *)
+    destruct (nth_error (pend_subs s) j) as [[id [p c]]|]; try discriminate. inv_some. auto.
   - (* CloseCall *) destruct (cl s) eqn:Hcl; try discriminate. inv_some.
     pose proof (c_cl2 _ (i_ctl _ _ (inv_reachable _ _ _ HR)) Hcl) as E.
     destruct Hret as [H|[id H]]; [congruence|]. rewrite E in H. destruct H.
@@ -896,7 +903,7 @@ Proof.
   - (* SubscribeLocked: only silently dropped subscriptions are added *)
     rewrite Hl in Hs. destruct (nth_error (pend_subs s) j) as [[id p]|]; [|discriminate].
     inv_some. repeat split; auto. intros i. unfold recv_of. cbn [subs set_subs set_pend_subs].
-    rewrite Hc. destruct (Nat.lt_ge_cases i (length (subs s))) as [Hlt|Hge].
+    unfold mk_sub. rewrite Hc. destruct (Nat.lt_ge_cases i (length (subs s))) as [Hlt|Hge].
     + rewrite nth_error_app1; auto.
     + rewrite nth_error_app2; auto.
       assert (nth_error (subs s) i = None) as -> by (apply nth_error_None; auto).
@@ -945,8 +952,8 @@ Qed.
 (* Close does return (non-vacuity of the two theorems above, and of [no_wedge]): *)
 Example close_example :
   let es := sched Fixed 10%Z init
-              [SubscribeCall 0%Z true; Batch 1%Z 7%Z; Advance 10%Z; CloseCall; Batch 1%Z 8%Z;
-               Advance 10%Z; SubscribeCall 5%Z true] in
+              [SubscribeCall 0%Z true false; Batch 1%Z 7%Z; Advance 10%Z; CloseCall; Batch 1%Z 8%Z;
+               Advance 10%Z; SubscribeCall 5%Z true false] in
   match run Fixed 10%Z init es with
   | Some s => match cl s with
               | CReturned => eqb_listZ (fanout s) [7%Z] && eqb_listZ (recv_of s 0) [7%Z]
@@ -961,7 +968,7 @@ Proof. vm_compute. reflexivity. Qed.
 Example live_example :
   match run Fixed 2%Z init
           (sched Fixed 2%Z init
-             (SubscribeCall 0%Z false
+             (SubscribeCall 0%Z false false
               :: flat_map (fun n => [Batch 0%Z (Z.of_nat n); Advance 2%Z]) (seq 1 52))) with
   | Some s => match lock s, first_enabled Fixed 2%Z s with
               | Exec v idx, None => (v =? 52)%Z && (idx =? 0)%nat
@@ -1080,7 +1087,7 @@ Qed.
    returns (first: K... CWaitLoop, second: K2WaitLoop) until the subscriber goes away; then BOTH
    return, with the channel closed (non-vacuity of [any_returned] through a later Close call) *)
 Example close2_example :
-  let env1 := SubscribeCall 0%Z false
+  let env1 := SubscribeCall 0%Z false false
               :: flat_map (fun n => [Batch 0%Z (Z.of_nat n); Advance 2%Z]) (seq 1 52)
               ++ [CloseCall; Close2Call 7%Z] in
   match run Fixed 2%Z init (sched Fixed 2%Z init env1),
@@ -1091,5 +1098,57 @@ Example close2_example :
       | _, _, _, _ => false
       end
   | _, _ => false
+  end = true.
+Proof. vm_compute. reflexivity. Qed.
+
+(* ---------------------------------------------------------------------------------------- *)
+(* degenerate subscriptions: a context that has already ended *)
+
+(* Subscribe on an OPEN batcher always registers the subscriber with a running forwarder — also
+   when the context passed has already ended ([c] = true), or ended while the call was waiting for
+   the lock: there is no "nothing to do" fast path *)
+Theorem subscribe_open_registers : forall vr iv s j s',
+  step vr iv s (SubscribeLocked j) = Some s' -> closed s = false ->
+  exists id p c b, nth_error (pend_subs s) j = Some (id, (p, c)) /\ subs s' = subs s ++ [b] /\
+    accepted b = true /\ registered b = true /\ fwd b = Idle /\ ctx_done b = c /\
+    user_closed b = false.
+Proof.
+  intros vr iv s j s' Hs Hc. unfold step in Hs. destruct (lock s); [|discriminate].
+  destruct (nth_error (pend_subs s) j) as [[id [p c]]|]; [|discriminate]. inv_some.
+  exists id, p, c, (mk_sub (closed s) (p, c) (length (fanout s))).
+  unfold mk_sub. rewrite Hc. cbn. repeat split; auto.
+Qed.
+
+(* ... and whenever the batcher has come to rest with the lock free, the channel of EVERY accepted
+   subscription whose context has ended — before, during or after Subscribe — has been closed and
+   its forwarder is gone (both variants) *)
+Theorem departed_closed : forall vr iv s,
+  reachable vr iv s -> stuck vr iv s -> lock s = Free ->
+  forall b, In b (subs s) -> accepted b = true -> ctx_done b = true ->
+    fwd b = Exited /\ user_closed b = true /\ registered b = false.
+Proof.
+  intros vr iv s HR Hst Hl b Hb Hacc Hcd.
+  pose proof (inv_reachable _ _ _ HR) as [_ HS _].
+  rewrite Forall_forall in HS. destruct (HS b Hb) as (_ & H2 & H3).
+  apply In_nth_error in Hb as [i Hi].
+  destruct (fwd b) as [|w| |] eqn:Hf; auto; exfalso.
+  - pose proof (Hst (FwdSeeDone i) eq_refl) as H. unfold step in H.
+    eapply with_sub_none in H; eauto. cbv beta in H. rewrite Hf in H.
+    unfold departing in H. rewrite Hcd in H. discriminate.
+  - pose proof (Hst (FwdDrop i) eq_refl) as H. unfold step in H.
+    eapply with_sub_none in H; eauto. cbv beta in H. rewrite Hf in H.
+    unfold departing in H. rewrite Hcd in H. discriminate.
+  - pose proof (Hst (FwdExitLocked i) eq_refl) as H. unfold step in H. rewrite Hl in H.
+    eapply with_sub_none in H; eauto. cbv beta in H. rewrite Hf in H. discriminate.
+Qed.
+
+(* non-vacuity: Subscribe with an ended context on an open batcher: registered, then closed *)
+Example born_done_example :
+  match run Fixed 5%Z init (sched Fixed 5%Z init [SubscribeCall 0%Z true true]) with
+  | Some s => match subs s with
+              | [b] => accepted b && ctx_done b && user_closed b && closed_seen b
+                       && negb (registered b) && negb (closed s)
+              | _ => false end
+  | None => false
   end = true.
 Proof. vm_compute. reflexivity. Qed.
